@@ -936,13 +936,20 @@ fn main() {
     }
 
     let seed = args.seed;
-    let n = args.n(2_000, 100_000);
+    // Miri interprets ~1000x slower: a fixed small number of trees there, whatever the scale
+    let n = if cfg!(miri) { args.get_u64("trees", 10) } else { args.n(4_000, 100_000) };
     par_cases(&mut r, &args, n, |i, r| {
         let (tree, table) = case_input(seed, i);
         // every tree on a runtime without and one with the sampled-trace filter, alternating generic / erased
         let (a, b) = if i % 2 == 0 { (0, 3) } else { (2, 1) };
-        eval_env(r, a, seed, i, &tree, &table);
-        eval_env(r, b, seed, i, &tree, &table);
+        if cfg!(miri) {
+            // seconds per tree under Miri: one runtime per tree, rotating over the four
+            eval_env(r, (i % 4) as usize, seed, i, &tree, &table);
+            eprintln!("[c18/miri] tree {} ({} nodes) done at {:.1}s", i, tree.count() - 1, r.elapsed_s());
+        } else {
+            eval_env(r, a, seed, i, &tree, &table);
+            eval_env(r, b, seed, i, &tree, &table);
+        }
     });
 
     let orphans = ORPHANS.take();
